@@ -228,6 +228,16 @@ structure TxProof where
                            -- reproduces (EIP-4844 network form carrying blob sidecar n).  It is part of
                            -- the evidence bytes (`BytesToHash`), NOT of `tx.Hash()`:
                            -- two proofs are byte-identical iff all six fields agree
+  sender : Option Nat := none
+                           -- the account the transaction was sent from, as anybody can recover it from
+                           -- the transaction itself (`ethtypes.Sender(LatestSignerForChainID(tx.ChainId()), tx)`);
+                           -- `none`: the transaction carries no valid signature.  A function of the
+                           -- transaction (same `hash` ⇒ same sender).  NOTHING below reads it:
+                           -- `VerifyAgainstTX` looks at `tx.Data()` only, and the relayer the call data
+                           -- must name is `Message.AssigneeRemoteAddress`, whoever sent the transaction
+                           -- (`Props/C07.lean` §11: `attest_ignores_the_sender`,
+                           -- `calldata_naming_another_relayer_rejected`).  (The compass-upload attester
+                           -- derives the new contract address from the sender — abstracted, see below.)
 deriving Repr, DecidableEq, Inhabited
 
 inductive Winner where
